@@ -76,9 +76,17 @@ func run(r *core.Run) {
 			maxDepth = d
 		}
 	}
+	// high-yield scenarios first: two levels = every 2-letter sequence + its observation
+	for _, s := range searches {
+		for s.sc.first && s.depth < 2 && s.depth < target(s.sc) && !s.cut && !s.exhausted {
+			s.level(false)
+		}
+	}
 	for d := 1; d <= maxDepth+1; d++ {
 		for _, s := range searches {
 			switch t := target(s.sc); {
+			case d <= t && s.depth >= d:
+				// already done by the priority pass
 			case d <= t:
 				s.level(false)
 			case d == t+1:
